@@ -40,7 +40,7 @@ Definition table : list entry := [
   (KMolecule, (RCtor KConnectivity), (mk_row Copied Copied Copied RSelf (Some (mk_brow Copied Copied Copied RSelf ERemap)) AAbsent AAbsent AAbsent Copied true));
   (KMolecule, (RCtor KGeometry), (mk_row Copied Copied Copied RSelf None ACopied AAbsent AAbsent Copied true));
   (KMolecule, (RCtor KStructure), (mk_row Copied Copied Copied RSelf (Some (mk_brow Copied Copied Copied RSelf ERemap)) ACopied AAbsent AAbsent Copied true));
-  (KMolecule, (RCtor KMolecule), (mk_row Copied Copied Copied RSelf (Some (mk_brow Copied Copied Copied RSelf ERemap)) ACopied AGiven AAbsent Copied true));
+  (KMolecule, (RCtor KMolecule), (mk_row Copied Copied Copied RSelf (Some (mk_brow Copied Copied Copied RSelf ERemap)) ACopied ACopied AAbsent Copied true));
   (KMolecule, (RCtor KEnsemble), (mk_row Copied Copied Copied RSelf (Some (mk_brow Copied Copied Copied RSelf ERemap)) AGiven AGiven AGiven Copied true));
   (KMolecule, RPickle, (mk_row Copied Copied Copied RSelf (Some (mk_brow Copied Copied Copied RSelf ERemap)) ACopied ACopied AAbsent Copied true));
   (KMolecule, RDeepcopy, (mk_row Copied Copied Copied RSelf (Some (mk_brow Copied Copied Copied RSelf ERemap)) ACopied ACopied AAbsent Copied true));
@@ -56,7 +56,7 @@ Definition table : list entry := [
   (KConformer, (RCtor KConnectivity), (mk_row Copied Copied Copied RSelf (Some (mk_brow Copied Copied Copied RSelf ERemap)) AAbsent AAbsent AAbsent Copied true));
   (KConformer, (RCtor KGeometry), (mk_row Copied Copied Copied RSelf None ACopied AAbsent AAbsent Copied true));
   (KConformer, (RCtor KStructure), (mk_row Copied Copied Copied RSelf (Some (mk_brow Copied Copied Copied RSelf ERemap)) ACopied AAbsent AAbsent Copied true));
-  (KConformer, (RCtor KMolecule), (mk_row Copied Copied Copied RSelf (Some (mk_brow Copied Copied Copied RSelf ERemap)) ACopied AGiven AAbsent Copied true));
+  (KConformer, (RCtor KMolecule), (mk_row Copied Copied Copied RSelf (Some (mk_brow Copied Copied Copied RSelf ERemap)) ACopied ACopied AAbsent Copied true));
   (KConformer, (RCtor KEnsemble), (mk_row Copied Copied Copied RSelf (Some (mk_brow Copied Copied Copied RSelf ERemap)) AGiven AGiven AGiven Copied true));
   (KConformer, RPickle, (mk_row Copied Copied Copied RSelf (Some (mk_brow Copied Copied Copied RSelf ERemap)) ACopied ACopied ACopied Copied true));
   (KConformer, RDeepcopy, (mk_row Copied Copied Copied RSelf (Some (mk_brow Copied Copied Copied RSelf ERemap)) ACopied ACopied ACopied Copied true));
